@@ -335,11 +335,17 @@ def run(ctx):
         if isinstance(st, ast.Assign) and au.path(st.targets[0]) == "results.value" and any(au.path(x) == "self.c" for x in au.walk_local(st.value)):
             signs["recomputed value"] = (au.sign_of(st.value), st)
         for n in au.walk_own(st):
-            if isinstance(n, ast.Compare) and len(n.ops) == 1 and isinstance(n.ops[0], (ast.GtE, ast.LtE)) and \
-                    any(isinstance(x, ast.BinOp) and isinstance(x.op, ast.MatMult) for x in au.walk_local(n.left)) and \
-                    not any(au.base_name(x) == "self" for x in au.walk_local(n.left) if isinstance(x, ast.Attribute)):
-                s = au.sign_of(n.left)
-                if isinstance(n.ops[0], ast.LtE):
+            if isinstance(n, ast.Compare) and len(n.ops) == 1 and isinstance(n.ops[0], (ast.GtE, ast.LtE)):
+                has_mm = lambda e: any(isinstance(x, ast.BinOp) and isinstance(x.op, ast.MatMult) for x in au.walk_local(e))
+                lside, rside = n.left, n.comparators[0]
+                if has_mm(lside) == has_mm(rside):
+                    continue
+                expr, on_left = (lside, True) if has_mm(lside) else (rside, False)
+                if any(au.base_name(x) == "self" for x in au.walk_local(expr) if isinstance(x, ast.Attribute)):
+                    continue
+                s = au.sign_of(expr)
+                # normalise to  expr >= other  (expr <= other and other >= expr flip the sign)
+                if isinstance(n.ops[0], ast.LtE) == on_left:
                     s = -s
                 signs["sample constraint"] = (s, n)
     if len(signs) < 3:
